@@ -88,6 +88,9 @@ def enumerate_vertices(names, ineq, eq):
     verts, seen = [], set()
     if len(rows_in) < need:
         raise HarnessError('set is not bounded (too few constraints)')
+    import math
+    if math.comb(len(rows_in), need) > 400000:
+        raise HarnessError('vertex enumeration beyond the stated bound (%d choose %d bases)' % (len(rows_in), need))
     for comb in itertools.combinations(range(len(rows_in)), need):
         A = [rows_eq[i] for i in eq_sel] + [rows_in[i] for i in comb]
         b = [rhs_eq[i] for i in eq_sel] + [rhs_in[i] for i in comb]
